@@ -59,10 +59,55 @@ def mats_of(inp, key, n):
 SHAPES = [[], [], [], [1], [2], [3], [2, 2], [1, 2]]
 
 
+LOCI = ["adbc0", "adbc0", "adbc0", "a_eq_d", "a_eq_md", "b_eq_c", "b_eq_mc", "parabolic", "diag", "antidiag",
+        "upper", "lower", "zero_a", "zero_d", "minus_one"]
+
+
+def special_sl2(rng):
+    """determinant-one 2x2 matrices with DYADIC entries on exact algebraic special loci (exact in floating point too):
+    ad + bc = 0 (ad = 1/2, bc = -1/2), a = ±d (trace 0), b = ±c, trace 2, (anti)diagonal, triangular, vanishing entries."""
+    pw = lambda: F(2) ** rng.randint(-2, 2) * rng.choice([-1, 1])
+    t, s, u = pw(), pw(), pw()
+    fam = rng.choice(LOCI)
+    if fam == "adbc0":
+        M = [[t, s], [-1 / (2 * s), 1 / (2 * t)]]
+    elif fam == "a_eq_d":
+        M = [[t, s], [(t * t - 1) / s, t]]
+    elif fam == "a_eq_md":
+        M = [[t, s], [(-t * t - 1) / s, -t]]
+    elif fam == "b_eq_c":
+        M = [[t, s], [s, (1 + s * s) / t]]
+    elif fam == "b_eq_mc":
+        M = [[t, s], [-s, (1 - s * s) / t]]
+    elif fam == "parabolic":
+        M = [[1 + s, -s * u], [s / u, 1 - s]]
+    elif fam == "diag":
+        M = [[t, F(0)], [F(0), 1 / t]]
+    elif fam == "antidiag":
+        M = [[F(0), t], [-1 / t, F(0)]]
+    elif fam == "upper":
+        M = [[t, s], [F(0), 1 / t]]
+    elif fam == "lower":
+        M = [[t, F(0)], [s, 1 / t]]
+    elif fam == "zero_a":
+        M = [[F(0), t], [-1 / t, s]]
+    elif fam == "zero_d":
+        M = [[s, t], [-1 / t, F(0)]]
+    else:
+        M = [[F(-1), F(0)], [F(0), F(-1)]]
+    assert M[0][0] * M[1][1] - M[0][1] * M[1][0] == 1
+    return [[F(x) for x in r] for r in M]
+
+
 def rmat2(rng, field, kind):
     """2x2 exact matrix: 'sl2' (det 1), 'zero' (det 1 with a vanishing entry), 'neg' (det -1), 'gl2' (any invertible)."""
     if kind == "sl2":
         return C.rzsl2(rng, field)
+    if kind == "locus":
+        M = [[Z(x) for x in r] for r in special_sl2(rng)]
+        if field == "QI" and rng.random() < 0.5:        # conjugate-type twist by diag(i, -i): still determinant one
+            M = [[Z(0, 1) * M[0][0], Z(0, 1) * M[0][1]], [Z(0, -1) * M[1][0], Z(0, -1) * M[1][1]]]
+        return M
     if kind == "zero":
         t = C.rz(rng, field, 4, 3, nonzero=True)
         u = C.rz(rng, field, 4, 3)
@@ -92,7 +137,7 @@ def gen_irrep(rng, n):
         field = rfield(rng)
         shape = rng.choice(SHAPES)
         cnt = int(np.prod(shape)) if shape else 1
-        mats = [rmat2(rng, field, rng.choice(["sl2", "sl2", "zero", "gl2", "neg"])) for _ in range(cnt)]
+        mats = [rmat2(rng, field, rng.choice(["sl2", "sl2", "zero", "gl2", "neg", "locus", "locus"])) for _ in range(cnt)]
         yield {"n": dim, "field": field, "shape": shape, "A": C.enc(mats, field), "via_hom": rng.random() < 0.3}
 
 
@@ -133,7 +178,7 @@ def gen_so21(rng, n):
     for _ in range(n):
         shape = rng.choice(SHAPES)
         cnt = int(np.prod(shape)) if shape else 1
-        kinds = [rng.choice(["sl2", "sl2", "zero", "zero", "neg"]) for _ in range(cnt)]
+        kinds = [rng.choice(["sl2", "sl2", "zero", "zero", "neg", "locus", "locus", "locus"]) for _ in range(cnt)]
         mats = [rmat2(rng, "Q", k) for k in kinds]
         yield {"field": "Q", "shape": shape, "A": C.enc(mats, "Q"), "kinds": kinds}
 
@@ -313,7 +358,7 @@ def judge_blocks(inp, obs, lr):
 
 def gen_so31(rng, n):
     for _ in range(n):
-        kind = rng.choice(["sl2", "sl2", "zero", "gl2", "real"])
+        kind = rng.choice(["sl2", "sl2", "zero", "gl2", "real", "locus", "locus"])
         M = rmat2(rng, "Q" if kind == "real" else "QI", "sl2" if kind == "real" else kind)
         yield {"kind": kind, "M": C.enc(M, "QI"), "via_hom": rng.random() < 0.3}
 
@@ -353,6 +398,15 @@ def judge_so31(inp, obs, lr):
 # oracles (float / complex inputs)
 # ------------------------------------------------------------------------------------------------
 def fsl2(rng, cplx, kind="sl2"):
+    if kind in ("locus", "locus_neg"):
+        M = np.array([[float(x) for x in r] for r in special_sl2(rng)])
+        if kind == "locus_neg":
+            M[1] = -M[1]
+        if cplx:
+            M = M.astype(complex)
+            if rng.random() < 0.5:
+                M = np.diag([1j, -1j]) @ M
+        return M
     while True:
         if cplx:
             M = np.array([[complex(rng.gauss(0, 1), rng.gauss(0, 1)) for _ in range(2)] for _ in range(2)])
@@ -423,13 +477,13 @@ def gen_hom(rng, n):
         if base == "irrep":
             param = rng.choice([1, 2, 3, 4, 5, 6])
             k, cplx = 2, rng.random() < 0.4
-            mk = lambda: fsl2(rng, cplx, rng.choice(["sl2", "zero"]))
+            mk = lambda: fsl2(rng, cplx, rng.choice(["sl2", "zero", "locus"]))
         elif base == "so21":
             k, cplx = 2, False
-            mk = lambda: fsl2(rng, False, rng.choice(["sl2", "zero", "neg"]))
+            mk = lambda: fsl2(rng, False, rng.choice(["sl2", "zero", "neg", "locus", "locus_neg"]))
         elif base == "so31":
             k, cplx = 2, True
-            mk = lambda: fsl2(rng, True, rng.choice(["sl2", "zero"]))
+            mk = lambda: fsl2(rng, True, rng.choice(["sl2", "zero", "locus"]))
         elif base in ("gln", "sln"):
             k, cplx = rng.choice([2, 3, 4, 5, 6]), rng.random() < 0.3
             mk = lambda: fgl(rng, k, cplx)
@@ -492,12 +546,12 @@ def gen_struct(rng, n):
     for _ in range(n):
         what = rng.choice(["irrep_det", "so21", "so31", "killing", "realify", "block"])
         if what == "irrep_det":
-            A = fsl2(rng, rng.random() < 0.4, rng.choice(["sl2", "zero"]))
+            A = fsl2(rng, rng.random() < 0.4, rng.choice(["sl2", "zero", "locus"]))
             yield {"what": what, "n": rng.choice([1, 2, 3, 4, 5, 6]), "A": enc_c(A)}
         elif what == "so21":
-            yield {"what": what, "A": enc_c(fsl2(rng, False, rng.choice(["sl2", "zero", "neg"])))}
+            yield {"what": what, "A": enc_c(fsl2(rng, False, rng.choice(["sl2", "zero", "neg", "locus", "locus_neg"])))}
         elif what == "so31":
-            yield {"what": what, "A": enc_c(fsl2(rng, True, rng.choice(["sl2", "zero"])))}
+            yield {"what": what, "A": enc_c(fsl2(rng, True, rng.choice(["sl2", "zero", "locus"])))}
         elif what == "killing":
             k = rng.choice([2, 3, 4, 5])
             A = fgl(rng, k, False)
@@ -586,7 +640,7 @@ def judge_struct(inp, obs, lr):
 
 def gen_pgl(rng, n):
     for _ in range(n):
-        kind = rng.choice(["sl2", "sl2", "zero", "zero", "exactzero", "neg"])
+        kind = rng.choice(["sl2", "sl2", "zero", "zero", "exactzero", "neg", "locus", "locus", "locus", "locus_neg"])
         if kind == "exactzero":
             t = math.exp(rng.uniform(-1.5, 1.5)) * rng.choice([-1, 1])
             u = rng.gauss(0, 1)
@@ -596,7 +650,7 @@ def gen_pgl(rng, n):
                 [[t, 0.0], [0.0, 1 / t]], [[0.0, t], [-1 / t, 0.0]]]))
         else:
             A = fsl2(rng, False, kind)
-        B = fsl2(rng, False, rng.choice(["sl2", "zero"]))
+        B = fsl2(rng, False, rng.choice(["sl2", "zero", "locus"]))
         yield {"kind": kind, "A": enc_c(A), "B": enc_c(B)}
 
 
@@ -607,13 +661,16 @@ def run_pgl(inp):
     rB = np.asarray(lie.o_to_pgl(SB))
     rAB = np.asarray(lie.o_to_pgl(SA @ SB))
     r2 = np.asarray(H.sl2_iso(A).to_sl2())
+    r3 = np.asarray(H.Isometry.from_sl2(A).to_sl2())
+    r4 = np.asarray(lie.hom.so21_to_sl2()(SA))
     # the other two components of O(2,1): -S
     rmA = np.asarray(lie.o_to_pgl(-SA))
     # bilinear_form=None: the argument is already in the Killing basis, i.e. it is sl2_irrep(A, 3)
     rN = np.asarray(lie.o_to_pgl(np.asarray(lie.sl2_irrep(A, 3)), bilinear_form=None))
     rmAB = np.asarray(lie.o_to_pgl((-SA) @ SB))
     return {"rA": rA.tolist(), "rB": rB.tolist(), "rAB": rAB.tolist(), "to_sl2": r2.tolist(),
-            "rmA": rmA.tolist(), "rmAB": rmAB.tolist(), "rN": rN.tolist()}
+            "rmA": rmA.tolist(), "rmAB": rmAB.tolist(), "rN": rN.tolist(),
+            "from_to_sl2": r3.tolist(), "hom_so21_to_sl2": r4.tolist()}
 
 
 def pm_err(X, Y):
@@ -624,11 +681,11 @@ def pm_err(X, Y):
 def judge_pgl(inp, obs, lr):
     A, B = toarr(inp["A"]), toarr(inp["B"])
     zero_entry = bool(np.any(A == 0))
-    tags0 = {"zero_entry": zero_entry, "det": "neg" if inp["kind"] == "neg" else "pos"}
+    tags0 = {"zero_entry": zero_entry, "det": "neg" if inp["kind"] in ("neg", "locus_neg") else "pos", "locus": inp["kind"].startswith("locus")}
     if "exc" in obs:
         return {"expected": "o_to_pgl value", "observed": obs, "tags": dict(tags0, exc=obs["exc"])}
     PAP = np.array([[A[1, 1], A[1, 0]], [A[0, 1], A[0, 0]]])
-    for k in ("rA", "to_sl2"):
+    for k in ("rA", "to_sl2", "from_to_sl2", "hom_so21_to_sl2"):
         if not finite(obs[k]) or pm_err(obs[k], A) > 1e-6:
             return {"expected": {"±A": A.tolist()}, "observed": obs[k],
                     "tags": dict(tags0, site="recover_" + k, returns_PAP=bool(finite(obs[k]) and pm_err(obs[k], PAP) <= 1e-6))}
@@ -645,6 +702,75 @@ def judge_pgl(inp, obs, lr):
     return None
 
 
+# ------------------------------------------------------------------------------------------------
+# histories on lie.hom wrapper OBJECTS: one object, many calls, with / without the optional `inv`, any order
+# ------------------------------------------------------------------------------------------------
+HOM_FACTORIES = ["irrep", "so21", "so21_to_sl2", "gln", "sln", "slr", "blk", "so31"]
+
+
+def hom_factory(name, param):
+    return {"irrep": lambda: lie.hom.sl2_irrep(param), "so21": lie.hom.sl2_to_so21, "so21_to_sl2": lie.hom.so21_to_sl2,
+            "gln": lie.hom.gln_adjoint, "sln": lie.hom.sln_adjoint, "slr": lie.hom.slc_to_slr,
+            "blk": lambda: lie.hom.block_include(param), "so31": lie.hom.sl2c_to_so31}[name]()
+
+
+def hom_reference(name, param, M):
+    return {"irrep": lambda: lie.sl2_irrep(M, param), "so21": lambda: lie.sl2_to_so21(M), "so21_to_sl2": lambda: lie.o_to_pgl(M),
+            "gln": lambda: lie.gln_adjoint(M), "sln": lambda: lie.sln_adjoint(M), "slr": lambda: lie.slc_to_slr(M),
+            "blk": lambda: lie.block_include(M, param), "so31": lambda: lie.sl2c_to_so31(M)}[name]()
+
+
+def gen_homhist(rng, n):
+    for _ in range(n):
+        name = rng.choice(HOM_FACTORIES)
+        param = rng.choice([2, 3, 4, 5]) if name == "irrep" else None
+        if name in ("irrep", "so21", "so21_to_sl2", "so31"):
+            k = 2
+            mk = lambda: fsl2(rng, name == "so31", rng.choice(["sl2", "zero", "locus"]))
+        else:
+            k = rng.choice([2, 3, 4])
+            cplx = name == "slr" or rng.random() < 0.3
+            mk = lambda: fgl(rng, k, cplx)
+        if name == "blk":
+            param = k + rng.choice([0, 1, 2])
+        calls = []
+        for _ in range(rng.randint(3, 6)):
+            calls.append({"M": enc_c(mk()), "inv": rng.choice(["none", "none", "keyword", "positional"])})
+        yield {"factory": name, "param": param, "calls": calls}
+
+
+def run_homhist(inp):
+    name, param = inp["factory"], inp["param"]
+    h = hom_factory(name, param)                 # ONE wrapper object for the whole history
+    worst, where = 0.0, None
+    for idx, c in enumerate(inp["calls"]):
+        M = toarr(c["M"])
+        X = np.asarray(lie.sl2_to_so21(M)) if name == "so21_to_sl2" else M
+        Xi = np.linalg.inv(X)
+        if c["inv"] == "keyword":
+            out = h(X.copy(), inv=Xi)
+        elif c["inv"] == "positional":
+            out = h(X.copy(), Xi)
+        else:
+            out = h(X.copy())
+        ref = np.asarray(hom_reference(name, param, X.copy()))
+        out = np.asarray(out)
+        e = float("inf") if out.shape != ref.shape else float(np.max(np.abs(out - ref)) / (1 + np.max(np.abs(ref))))
+        if not (e <= worst):
+            worst, where = e, idx
+    return {"worst": worst, "where": where, "pattern": [c["inv"] for c in inp["calls"]]}
+
+
+def judge_homhist(inp, obs, lr):
+    tags0 = {"factory": inp["factory"], "history": True}
+    if "exc" in obs:
+        return {"expected": "the value of a fresh call", "observed": obs, "tags": dict(tags0, exc=obs["exc"])}
+    if not obs["worst"] <= 1e-8:
+        return {"expected": "every call on a reused lie.hom object equals the stateless function on the same matrix "
+                            "(whatever was passed as `inv` in earlier calls)", "observed": obs, "tags": dict(tags0, site="history")}
+    return None
+
+
 def gen_pglform(rng, n):
     for _ in range(n):
         kind = rng.choice(["diag", "generic", "orthogonal"])
@@ -657,7 +783,7 @@ def gen_pglform(rng, n):
                 Pm = np.array([[rng.gauss(0, 1) for _ in range(3)] for _ in range(3)])
                 if np.linalg.cond(Pm) < 8:
                     break
-        yield {"kind": kind, "P": enc_c(Pm), "A": enc_c(fsl2(rng, False, rng.choice(["sl2", "zero"]))),
+        yield {"kind": kind, "P": enc_c(Pm), "A": enc_c(fsl2(rng, False, rng.choice(["sl2", "zero", "locus"]))),
                "B": enc_c(fsl2(rng, False, "sl2"))}
 
 
@@ -709,7 +835,7 @@ def gen_nd(rng, n):
             yield {"which": which, "k": k, "shape": shape, "A": nd_enc(C.enc(mats, "Q"), shape, k),
                    "Ai": nd_enc(C.enc([C.zinv(M) for M in mats], "Q"), shape, k)}
         else:
-            mats = [rmat2(rng, "Q", rng.choice(["sl2", "zero", "gl2"])) for _ in range(cnt)]
+            mats = [rmat2(rng, "Q", rng.choice(["sl2", "zero", "gl2", "locus"])) for _ in range(cnt)]
             yield {"which": which, "k": 2, "n": rng.choice([1, 2, 3, 4, 5, 6]), "shape": shape,
                    "A": nd_enc(C.enc(mats, "Q"), shape, 2)}
 
@@ -857,6 +983,10 @@ CLAUSES = [
            budget={"quick": 400, "thorough": 10000},
            what="f(A·B) = f(A)·f(B), f(1) = 1 for every map (irrep n=1..6, so21, gln/sln adjoint n=2..6, slc_to_slr, block_include, "
                 "sl2c_to_so31; direct and via lie.hom), single matrices and arrays of matrices, arrays = unit-by-unit"),
+    Clause("hom_history_oracle", "oracle", gen_homhist, run_homhist, judge_homhist, site="lie.hom.* wrapper objects",
+           budget={"quick": 250, "thorough": 5000},
+           what="one lie.hom wrapper object per case, reused over a history of 3-6 calls with the optional inverse omitted / given by "
+                "keyword / given positionally in every order: each call must equal the stateless function (all eight factories)"),
     Clause("integer_oracle", "oracle", gen_intpack, run_intpack, judge_intpack, site="lie.* / lie.hom.* / hyperbolic.sl2_iso",
            budget={"quick": 300, "thorough": 6000},
            what="every Lie map on integer-dtype ndarrays (int64, int32), stacks of them, and Python int lists for sl2_iso / from_sl2: "
